@@ -62,7 +62,7 @@ ASSUMPTIONS = ['scipy.signal.convolve2d (direct sums) is the reference convoluti
 def plan(tier):
     if tier == 'thorough':
         return dict(shards=16, cases=12000, timeout=2400, budget_s=600)
-    return dict(shards=8, cases=750, timeout=600, budget_s=70)
+    return dict(shards=8, cases=560, timeout=600, budget_s=60)
 
 
 def selftest():
@@ -116,6 +116,44 @@ def _magnitude(rng, p_unit=0.5):
     if r < p_unit + 0.6 * (1 - p_unit):
         return float(2.0 ** int(rng.integers(-80, 81)))
     return float(10.0 ** rng.uniform(-24.0, 24.0))
+
+
+LAYOUTS = ['C', 'C', 'C', 'C', 'F', 'strided', 'offset', 'negstride', 'bigendian']
+
+
+def _layout(arr, kind):
+    """Same values, different memory layout / byte order (fresh memory every time)."""
+    if arr is None:
+        return None
+    a = np.asarray(arr)
+    if a.ndim != 2 or kind == 'C':
+        return np.array(a, copy=True, order='C')
+    ny, nx = a.shape
+    if kind == 'F':
+        return np.array(a, copy=True, order='F')
+    if kind == 'strided':
+        big = np.zeros((2 * ny, 2 * nx), a.dtype)
+        v = big[::2, ::2]
+        v[...] = a
+        return v
+    if kind == 'offset':
+        big = np.zeros((ny + 3, nx + 2), a.dtype)
+        v = big[2:2 + ny, 1:1 + nx]
+        v[...] = a
+        return v
+    if kind == 'negstride':
+        return np.array(a[::-1, ::-1], copy=True)[::-1, ::-1]
+    if kind == 'bigendian':
+        return a.astype(a.dtype.newbyteorder('>'))
+    raise ValueError(kind)
+
+
+def _pow2_factor(rng, mag):
+    """Power of two that keeps mag * k well inside the range where squares cannot over/underflow."""
+    k = float(2.0 ** int(rng.integers(-70, 71)))
+    if mag > 0 and not (1e-45 < mag * k < 1e45):
+        k = 1.0 / k
+    return k
 
 
 def _key(row):
@@ -263,6 +301,10 @@ def _run_find_peaks(case):
         shape = (int(rng.integers(1, 25)), int(rng.integers(1, 25)))
         if shape == (1, 1) or rng.random() < 0.9:
             shape = (max(2, shape[0]), max(2, shape[1]))
+        if rng.random() < 0.1:                      # strongly elongated
+            shape = (int(rng.integers(1, 5)), int(rng.integers(40, 90)))
+            shape = shape if rng.random() < 0.5 else shape[::-1]
+            case.note('axis_shape_elongated')
     ny, nx = shape
     data, kind = _fp_data(case, shape)
     want_centroid = cls == 'fp_centroid' or rng.random() < 0.08
@@ -291,6 +333,9 @@ def _run_find_peaks(case):
         if rng.random() < 0.5 and finite.size:
             # mask the brightest pixel(s): masked neighbour is the local maximum
             mask |= (data == hi)
+        if rng.random() < 0.04:
+            mask[:] = True                          # degenerate: everything masked
+            case.note('axis_degenerate_all_masked')
     border = _fp_border(case, shape)
     npeaks = np.inf
     if cls == 'fp_npeaks' or rng.random() < 0.1:
@@ -343,15 +388,36 @@ def _run_find_peaks(case):
     nmust, neither = int((status == ref.MUST).sum()), int((status == ref.EITHER).sum())
     constant = bool(np.all(data == data.flat[0]))
 
-    def call(np_):
-        d_in = data.astype(int) if int_dtype else data.copy()
+    lay = str(rng.choice(LAYOUTS)) if cfunc is None else 'C'     # centroids are compared bit for bit
+    tform = str(rng.choice(['float', 'float', 'np.float64', 'int'])) if np.ndim(thr) == 0 else 'array'
+    if tform == 'int' and (int_dtype is False and mag != 1.0 or float(thr) != int(thr)):
+        tform = 'float'
+    f32 = bool(int_dtype is False and mag == 1.0 and np.all(np.isfinite(data)) and np.all(data == np.round(data))
+               and np.ndim(thr) == 0 and cfunc is None and rng.random() < 0.15)   # integer-valued: exact in float32
+    case.note('axis_layout_' + lay)
+    case.note('axis_threshold_form_' + tform)
+    if f32:
+        case.note('axis_dtype_float32')
+
+    def call(np_, factor=None):
+        d_in = data.astype(int) if int_dtype else (data.astype(np.float32) if f32 else data.copy())
         t_in = np.copy(thr) if np.ndim(thr) else float(thr)
+        if factor is not None:
+            d_in = d_in * factor
+            t_in = t_in * factor
+        d_in = _layout(d_in, lay)
+        if np.ndim(t_in):
+            t_in = _layout(t_in, lay)
+        elif tform == 'np.float64':
+            t_in = np.float64(t_in)
+        elif tform == 'int' and factor is None:
+            t_in = int(t_in)
         if quantity:
             d_in = d_in * u.Jy
             t_in = t_in * u.Jy
         kws = {k: (v.copy() if isinstance(v, np.ndarray) else v) for k, v in kw.items()}
         if mask is not None:
-            kws['mask'] = mask.copy()
+            kws['mask'] = _layout(mask, lay)
         if border is not None:
             kws['border_width'] = border
         if np_ != np.inf:
@@ -359,7 +425,8 @@ def _run_find_peaks(case):
         if cfunc is not None:
             kws['centroid_func'] = cfunc
             if error is not None:
-                kws['error'] = (error * u.Jy) if quantity else error.copy()
+                e_in = _layout(error if factor is None else error * factor, lay)
+                kws['error'] = (e_in * u.Jy) if quantity else e_in
         if wcs is not None:
             kws['wcs'] = wcs
         with warnings.catch_warnings(record=True) as wl:
@@ -465,6 +532,28 @@ def _run_find_peaks(case):
                 case.check(core.exact(v2[~np.isnan(e2)], e2[~np.isnan(e2)]),
                            'find_peaks_peak_value_is_pixel_value', m2)
 
+    # positive rescaling of image, threshold (and error map) by a power of two: the same peaks, values x k
+    if not int_dtype and not f32:
+        fin_ = np.abs(data[np.isfinite(data)])
+        kf = _pow2_factor(rng, float(fin_.max()) if fin_.size else 1.0)
+        case.note('rescale_factor_' + _bucket(kf))
+        tk, wk = call(np.inf, factor=kf)
+        mk = dict(mech, rel='scale')
+        if case.check(tk is not None and not wk, 'find_peaks_rescaled_image_same_peaks', mk, k=kf, none=tk is None):
+            same_pos = (len(tk) == n and np.array_equal(np.asarray(tk['x_peak']), xs)
+                        and np.array_equal(np.asarray(tk['y_peak']), ys)
+                        and np.array_equal(np.asarray(tk['id']), np.asarray(tbl['id'])))
+            case.check(same_pos, 'find_peaks_rescaled_image_same_peaks', mk, k=kf, n=n, nk=len(tk))
+            if same_pos:
+                vk = tk['peak_value']
+                vk = np.asarray(vk.value if hasattr(vk, 'value') else vk, float)
+                case.close(vk, pv * kf, 'find_peaks_rescaled_image_values_scale', mech=mk, k=kf)
+                if cfunc is not None and 'x_centroid' in tk.colnames and 'x_centroid' in tbl.colnames:
+                    case.close(np.array([np.asarray(tk['x_centroid'], float), np.asarray(tk['y_centroid'], float)]),
+                               np.array([np.asarray(tbl['x_centroid'], float), np.asarray(tbl['y_centroid'], float)]),
+                               'find_peaks_rescaled_image_same_centroids', mech=dict(mk, centroid=cname,
+                                                                                     error=error is not None), k=kf)
+
     # centroids
     if cfunc is not None:
         import inspect
@@ -557,6 +646,11 @@ def _star_scene(case, sparse):
         sigma_noise = 1.0
         return data, sigma_noise
     ny, nx = int(rng.integers(36, 65)), int(rng.integers(36, 65))
+    if rng.random() < 0.12:                         # strongly elongated image
+        ny, nx = int(rng.integers(16, 24)), int(rng.integers(90, 130))
+        if rng.random() < 0.5:
+            ny, nx = nx, ny
+        case.note('axis_shape_elongated')
     yy, xx = np.mgrid[0:ny, 0:nx].astype(float)
     data = rng.normal(0, 1.0, size=(ny, nx))
     nstar = int(rng.integers(3, 12))
@@ -669,11 +763,35 @@ class _Finder:
                         brightest=None)
         return dict(peakmax=None, brightest=None)
 
-    def make(self, **over):
+    def make(self, factor=None, **over):
+        """factor: threshold and peakmax multiplied by it (image rescaled by the same factor in _run).
+        Call forms (self.form): Quantity threshold/peakmax, numpy scalars, list-of-lists xycoords."""
+        import astropy.units as u
         from photutils.detection import DAOStarFinder, IRAFStarFinder, StarFinder
         kw = dict(self.base)
         kw.update(self.wide())
         kw.update(over)
+        form = getattr(self, 'form', {})
+        if factor is not None:
+            kw['threshold'] = kw['threshold'] * factor
+            if kw.get('peakmax') is not None:
+                kw['peakmax'] = kw['peakmax'] * factor
+        if form.get('scalars') == 'numpy':
+            kw['threshold'] = np.float64(kw['threshold'])
+            if 'fwhm' in kw:
+                kw['fwhm'] = np.float64(kw['fwhm'])
+            if kw.get('peakmax') is not None:
+                kw['peakmax'] = np.float64(kw['peakmax'])
+            if kw.get('brightest') is not None:
+                kw['brightest'] = np.int64(kw['brightest'])
+        if form.get('xy') == 'list' and kw.get('xycoords') is not None:
+            kw['xycoords'] = [[float(a), float(b)] for a, b in kw['xycoords']]
+        elif form.get('xy') == 'float' and kw.get('xycoords') is not None:
+            kw['xycoords'] = np.asarray(kw['xycoords'], float)
+        if form.get('quantity'):
+            kw['threshold'] = kw['threshold'] * u.adu
+            if kw.get('peakmax') is not None:
+                kw['peakmax'] = kw['peakmax'] * u.adu
         if self.kind == 'dao':
             return DAOStarFinder(**kw)
         if self.kind == 'iraf':
@@ -716,11 +834,20 @@ class _Finder:
         return 'max_value' if self.kind == 'sf' else 'peak'
 
 
-def _run(finder, data, mask):
+def _run(finder, data, mask, form=None, factor=None):
+    import astropy.units as u
     from photutils.utils.exceptions import NoDetectionsWarning
+    form = form or {}
+    d_in = _layout(data if factor is None else data * factor, form.get('layout', 'C'))
+    m_in = _layout(mask, form.get('layout', 'C'))
+    if form.get('quantity'):
+        d_in = d_in * u.adu
     with warnings.catch_warnings(record=True) as wl:
         warnings.simplefilter('always')
-        tbl = finder(data.copy(), mask=None if mask is None else mask.copy())
+        if form.get('positional') and m_in is not None:
+            tbl = finder.find_stars(d_in, m_in)
+        else:
+            tbl = finder(d_in, mask=m_in)
     warned = any(issubclass(w.category, NoDetectionsWarning) for w in wl)
     return tbl, warned
 
@@ -781,6 +908,37 @@ def _check_table_basics(case, F, tbl, warned, mech, tag):
     return rows
 
 
+def _check_rescaled(case, F, rows, tblk, warnedk, kf, mech, tag, probe=None):
+    """Image, threshold (and peakmax) multiplied by the power of two kf: the same sources in the same order,
+    dimensionless columns bit-identical, peak/flux x kf, mag shifted by -2.5 log10(kf)."""
+    m = dict(mech, rel='scale', table=tag)
+    n0 = 0 if rows is None else len(rows)
+    case.check(warnedk == (tblk is None), 'star_warning_iff_none', dict(m, table=tag + '_rescaled'))
+    nk = 0 if tblk is None else len(tblk)
+    if not case.check(nk == n0, 'star_rescaled_image_same_sources', m, k=kf, rows=n0, rows_rescaled=nk):
+        return
+    if n0 == 0:
+        return
+    rk = _table_rows(tblk, F.cols)
+    case.check(np.array_equal(np.asarray(tblk['id']), np.arange(1, nk + 1)), 'star_ids_1_to_N', m)
+    scaled = {'peak', 'flux', 'max_value'}
+    for i, c in enumerate(F.cols):
+        if c == 'mag':
+            with np.errstate(all='ignore'):
+                case.close(rk[:, i], rows[:, i] - 2.5 * math.log10(kf), 'star_rescaled_image_mag_shift',
+                           atol=1e-11, mech=m, k=kf)
+        elif c in scaled:
+            case.close(rk[:, i], rows[:, i] * kf, 'star_rescaled_image_values_scale', mech=dict(m, column=c), k=kf)
+        else:
+            mc = dict(m, column=c)
+            if (probe is not None and c in ('xcentroid', 'ycentroid') and F.kind == 'dao'
+                    and not core.exact(rk[:, i], rows[:, i])):
+                # classification only: a term that does not scale with the image (its effect ~ 1/values) vanishes
+                # for large values: two runs at large magnitudes agree with each other
+                mc['explained_by_term_not_scaling_with_image'] = bool(probe(i))
+            case.close(rk[:, i], rows[:, i], 'star_rescaled_image_same_sources', mech=mc, k=kf)
+
+
 def _run_star(case):
     rng = case.rng
     kind, scene = case.cls.split('_')
@@ -792,6 +950,10 @@ def _run_star(case):
     fin_ = np.abs(data[np.isfinite(data)])
     case.note('data_magnitude_' + _bucket(float(fin_.max()) if fin_.size else 0.0))
     F = _Finder(kind, rng, sig, sparse, mag)
+    if rng.random() < 0.04:
+        # degenerate: nothing can be detected (threshold above every convolved value / everything masked below)
+        F.base['threshold'] = float(np.nanmax(np.abs(data))) * 1e3 + 1.0 * mag
+        case.note('axis_degenerate_threshold_above_everything')
     mask = None
     if rng.random() < 0.4:
         mask = rng.random(data.shape) < rng.choice([0.01, 0.05])
@@ -810,6 +972,17 @@ def _run_star(case):
     mech = {'cls': case.cls, 'finder': kind, 'exclude_border': bool(F.base.get('exclude_border', False)),
             'min_sep_integer': bool(float(msep).is_integer()), 'min_sep_zero': bool(msep == 0)}
 
+    F.form = {'layout': str(rng.choice(LAYOUTS)),
+              'quantity': bool(rng.random() < 0.12),
+              'scalars': str(rng.choice(['python', 'python', 'numpy'])),
+              'xy': str(rng.choice(['int', 'int', 'float', 'list'])),
+              'positional': bool(rng.random() < 0.3)}
+    for k_, v_ in F.form.items():
+        case.note(f'axis_form_{k_}_{v_}')
+
+    def run_(finder, data_, mask_, factor=None):       # all runs of this case use the same call form
+        return _run(finder, data_, mask_, F.form, factor)
+
     fw = F.make()
     karr = F.kernel_array(fw)
     yr, xr = karr.shape[0] // 2, karr.shape[1] // 2
@@ -824,7 +997,7 @@ def _run_star(case):
     rbig = max(math.ceil(msep) + 1.0, math.hypot(xr, yr) + 1.0)
     must = ref.must_peaks(conv, thr_c, mask, eps, rbig, xborder=bx, yborder=by)
 
-    W, warnedW = _run(fw, data, mask)
+    W, warnedW = run_(fw, data, mask)
     rowsW = _check_table_basics(case, F, W, warnedW, mech, 'wide')
     nW = 0 if rowsW is None else len(rowsW)
     case.nontrivial = nW >= 2
@@ -845,6 +1018,23 @@ def _run_star(case):
             ym, xm = np.nonzero(stm != ref.EXCLUDE)
             _model['p'] = np.transpose((xm, ym))
         return _model['p']
+
+    # (R) positive rescaling of image and threshold by a power of two
+    fin_ = np.abs(data[np.isfinite(data)])
+    kf = _pow2_factor(rng, float(fin_.max()) if fin_.size else 1.0)
+    case.note('rescale_factor_' + _bucket(kf))
+    Wk, wWk = run_(F.make(factor=kf), data, mask, factor=kf)
+    mag_now = float(fin_.max()) if fin_.size else 1.0
+
+    def probe(icol, **b_):
+        outs = []
+        for e_ in (30, 40):
+            k_ = float(2.0 ** (e_ - int(round(math.log2(mag_now))))) if mag_now > 0 else 1.0
+            T_, _ = run_(F.make(factor=k_, **b_), data, mask, factor=k_)
+            outs.append(_table_rows(T_, F.cols)[:, icol])
+        return outs[0].shape == outs[1].shape and bool(np.all(np.abs(outs[0] - outs[1]) <= 1e-7))
+
+    _check_rescaled(case, F, rowsW, Wk, wWk, kf, mech, 'wide', probe)
 
     # (A) every centroid within the kernel half-size of a candidate peak
     near = []
@@ -874,7 +1064,7 @@ def _run_star(case):
         if ncand == 0:
             case.note('star_no_candidate_peak')        # then (A) already demands that no row is reported
         elif ncand <= 60:
-            RC, wRC = _run(F.make(xycoords=cand.copy()), data, mask)
+            RC, wRC = run_(F.make(xycoords=cand.copy()), data, mask)
             rowsRC = _check_table_basics(case, F, RC, wRC, mech, 'xycoords_all')
             rowsRC = np.zeros((0, len(F.cols))) if rowsRC is None else rowsRC
             # W rows are rows that xycoords=<candidates> reproduces exactly
@@ -888,7 +1078,7 @@ def _run_star(case):
                     mp = model_peaks()
                     expl = False
                     if 0 < len(mp) <= 400:
-                        Rm, _ = _run(F.make(xycoords=mp.copy()), data, mask)
+                        Rm, _ = run_(F.make(xycoords=mp.copy()), data, mask)
                         setRm = {_key(r) for r in _table_rows(Rm, F.cols)}
                         expl = all(_key(rowsW[i]) in setRm for i in miss)
                     mrow = dict(mech, explained_by_fractional_offset_grid=bool(expl))
@@ -898,7 +1088,7 @@ def _run_star(case):
             sample = np.arange(ncand) if ncand <= 14 else np.sort(rng.choice(ncand, size=14, replace=False))
             row_of = {}
             for j in sample:
-                Rj, wj = _run(F.make(xycoords=cand[j:j + 1].copy()), data, mask)
+                Rj, wj = run_(F.make(xycoords=cand[j:j + 1].copy()), data, mask)
                 case.check(wj == (Rj is None), 'star_warning_iff_none', dict(mech, table='xycoords_single'))
                 if Rj is not None:
                     rj = _table_rows(Rj, F.cols)
@@ -919,7 +1109,7 @@ def _run_star(case):
             if ncand >= 2:
                 size = int(rng.integers(1, ncand))
                 sub = np.sort(rng.choice(ncand, size=size, replace=False))
-                RS, wS = _run(F.make(xycoords=cand[sub].copy()), data, mask)
+                RS, wS = run_(F.make(xycoords=cand[sub].copy()), data, mask)
                 rowsRS = _table_rows(RS, F.cols)
                 case.check(wS == (RS is None), 'star_warning_iff_none', dict(mech, table='xycoords_sub'))
                 case.check({_key(r) for r in rowsRS} <= setRC, 'star_xycoords_sublist_rows_subset', mech)
@@ -929,7 +1119,7 @@ def _run_star(case):
                                'star_xycoords_sublist_gives_exactly_those_rows', mech=mech, sub=sub.tolist())
             # isolated peaks must be in the table found without xycoords
             if len(must) and not has_nan:
-                RM, _ = _run(F.make(xycoords=must.copy()), data, mask)
+                RM, _ = run_(F.make(xycoords=must.copy()), data, mask)
                 rowsRM = _table_rows(RM, F.cols)
                 setW = set() if rowsW is None else {_key(r) for r in rowsW}
                 missing = [r.tolist() for r in rowsRM if _key(r) not in setW]
@@ -957,7 +1147,7 @@ def _run_star(case):
             refined.add(i)
             hit = []
             for a_ in sets[i]:
-                Rj, _ = _run(F.make(xycoords=cand[a_:a_ + 1].copy()), data, mask)
+                Rj, _ = run_(F.make(xycoords=cand[a_:a_ + 1].copy()), data, mask)
                 if Rj is not None and _key(_table_rows(Rj, F.cols)[0]) == _key(rowsW[i]):
                     hit.append(a_)
             if hit:
@@ -1024,7 +1214,7 @@ def _run_star(case):
             b['peakmax'] = None if not np.isfinite(pm) else pm
         keep = _apply_bounds(kind, rows0, F.cols, b)
         exp = rows0[keep]
-        B, wB = _run(F.make(**b), data, mask)
+        B, wB = run_(F.make(**b), data, mask)
         mb = dict(mech, bounds=True)
         rowsB = _check_table_basics(case, F, B, wB, mb, 'bounded')
         rowsB = np.zeros((0, len(F.cols))) if rowsB is None else rowsB
@@ -1035,11 +1225,15 @@ def _run_star(case):
         if B is not None and len(exp) == len(rowsB):
             # order of the rows is the order of the wide-open table (ids are renumbered consecutively)
             case.close(rowsB, exp, 'star_bounded_table_keeps_order', mech=mb)
+        if rep == 0:
+            Bk, wBk = run_(F.make(factor=kf, **b), data, mask, factor=kf)
+            _check_rescaled(case, F, rowsB if B is not None else None, Bk, wBk, kf, mb, 'bounded',
+                            lambda icol, b=dict(b): probe(icol, **b))
         # brightest
         if len(exp) >= 1 and rng.random() < 0.8:
             nb = int(rng.integers(1, len(exp) + 2))
             form = nb if rng.random() < 0.7 else float(nb)
-            BN, wN = _run(F.make(brightest=form, **b), data, mask)
+            BN, wN = run_(F.make(brightest=form, **b), data, mask)
             mn = dict(mech, bounds=True, brightest=True)
             rowsN = _check_table_basics(case, F, BN, wN, mn, 'brightest')
             if case.check(rowsN is not None, 'star_brightest_not_none', mn):
@@ -1054,8 +1248,8 @@ def _run_star(case):
                     case.close(fl_sel, fl_all[:k], 'star_brightest_keeps_largest_fluxes', mech=mn)
         # xycoords + bounds: the same filters apply
         if kind in ('dao', 'iraf') and 0 < len(cand) <= 60 and rep == 0:
-            RCb, wb = _run(F.make(xycoords=cand.copy(), **b), data, mask)
-            RC0, _ = _run(F.make(xycoords=cand.copy()), data, mask)
+            RCb, wb = run_(F.make(xycoords=cand.copy(), **b), data, mask)
+            RC0, _ = run_(F.make(xycoords=cand.copy()), data, mask)
             r0 = _table_rows(RC0, F.cols)
             expb = r0[_apply_bounds(kind, r0, F.cols, b)] if len(r0) else r0
             mx = dict(mech, bounds=True, xycoords=True)
